@@ -40,7 +40,7 @@ CTL = ['\x00', '\x01', '\x08', '\x1b', '\x7f', '\x80', '\x9f', '\xad', '‚Äã', 'Ô
 FULLWIDTH = {'e': 'ÔΩÖ', 'x': 'ÔΩò', 'p': 'ÔΩê', 'r': 'ÔΩí', 's': 'ÔΩì', 'i': 'ÔΩâ',
              'o': 'ÔΩè', 'n': 'ÔΩé', 'u': 'ÔΩï', 'l': 'ÔΩå',
              'E': 'Ôº•', 'X': 'Ôº∏', 'P': 'Ôº∞', 'R': 'Ôº≤', 'S': 'Ôº≥', 'I': 'Ôº©',
-             'O': 'ÔºØ', 'N': 'ÔºÆ'}
+             'O': 'ÔºØ', 'N': 'ÔºÆ', 'U': 'Ôºµ', 'L': 'Ôº¨'}
 SMALLCAP = {'r': ' Ä', 'i': '…™', 'n': '…¥', 'l': ' ü'}
 ODD_LETTERS = ['‚Ñ™', '≈ø', 'ƒ∞', 'Œ£', '√ü', 'ƒ±', 'ÔΩä', 'Ÿ°', '¬≤', '‚Ö†']
 
@@ -120,7 +120,7 @@ def obf_keyword(word, rng, css=True):
         if style in ('case', 'mixed') and rng.random() < 0.5:
             c = c.upper()
         if style in ('wide', 'mixed') and rng.random() < 0.3:
-            c = rng.choice([FULLWIDTH.get(ch, ch), SMALLCAP.get(ch, ch)])
+            c = rng.choice([FULLWIDTH.get(c, c), FULLWIDTH.get(ch, ch), SMALLCAP.get(ch, ch)])
         if css and style in ('cssesc', 'mixed') and rng.random() < 0.5:
             c = css_esc(c, rng)
         elif style in ('ent', 'mixed') and rng.random() < 0.5:
